@@ -19,7 +19,12 @@ LinStep(h) ==
        [] op[h].name = "shmlock" -> MLockLin(h) /\ op' = [op EXCEPT ![h].st = "done"]
        [] op[h].name = "shmunlock" -> MUnlock(h) /\ op' = [op EXCEPT ![h].st = "done"]
        [] op[h].name = "shmown" -> MOwn(h) /\ op' = [op EXCEPT ![h].st = "done"]
-       [] op[h].name = "shmfree" -> MFree(h) /\ op' = [op EXCEPT ![h].st = "done"]
+       [] op[h].name = "shmfree" -> /\ MFree(h)
+                                    (* an owner's free that removes a name while another p_shm_new on that name is in flight: that call is *)
+                                    (* neither "while the segment exists" nor "the next one afterwards" - it is marked (inj = 2), see LinRaceFail *)
+                                    /\ op' = [k \in Hids |-> IF k = h THEN [op[h] EXCEPT !.st = "done"]
+                                                              ELSE IF op[k].st = "called" /\ op[k].name = "shmnew" /\ gen[op[k].a] # 0 /\ gen'[op[k].a] = 0
+                                                                   THEN [op[k] EXCEPT !.inj = 2] ELSE op[k]]
        [] OTHER -> FALSE
 (* a p_shm_new that cannot create the segment (zero size, or a size the system refuses) fails and changes nothing: *)
 (* in particular it leaves no name behind                                                                      *)
@@ -30,10 +35,14 @@ LinNewFail(h) == /\ op[h].st = "called" /\ op[h].name = "shmnew" /\ gen[op[h].a]
    changed nothing, whatever existed before is still there *)
 LinInjFail(h) == /\ op[h].st = "called" /\ op[h].name = "shmnew" /\ op[h].inj = 1
                  /\ op' = [op EXCEPT ![h].st = "failed"] /\ UNCHANGED mvars
+(* a p_shm_new that was in flight when an owner's free removed the name may find the name gone half-way and fail; it has then changed *)
+(* nothing - the name stays free for the next p_shm_new                                                                              *)
+LinRaceFail(h) == /\ op[h].st = "called" /\ op[h].name = "shmnew" /\ op[h].inj = 2
+                  /\ op' = [op EXCEPT ![h].st = "failed"] /\ UNCHANGED mvars
 (* a call through a handle that does not exist (its open failed) fails and changes nothing *)
 LinNoHandle(h) == /\ op[h].st = "called" /\ op[h].name \in {"shmw", "shmr", "shmsize", "shmunlock", "shmown", "shmfree"} /\ hd[h].g = 0
                   /\ op' = [op EXCEPT ![h].st = "failed"] /\ UNCHANGED mvars
-DoLin == (\E h \in Hids : LinStep(h) \/ LinNewFail(h) \/ LinInjFail(h) \/ LinNoHandle(h)) /\ UNCHANGED l
+DoLin == (\E h \in Hids : LinStep(h) \/ LinNewFail(h) \/ LinInjFail(h) \/ LinRaceFail(h) \/ LinNoHandle(h)) /\ UNCHANGED l
 TrRet == /\ IsEvent("ret") /\ Consume
          /\ LET h == Ev.h IN
             /\ op[h].name = Ev.op
